@@ -247,7 +247,15 @@ impl StreamsState {
         self.pending.clear();
         self.send_streams = 0;
         self.data_sent = 0;
+        // The streams that carried the early data are gone, so none of it is outstanding any more.
+        // Otherwise the send window stays (partly) consumed forever, as nothing will ever be acked.
+        self.unacked_data = 0;
+        // Forget the remembered connection-level limit: `received_max_data` only ever raises
+        // `max_data`, so the limit from the new transport parameters would not apply if lower.
+        self.max_data = 0;
         self.connection_blocked.clear();
+        // A failed early `open` must not produce a STREAMS_BLOCKED frame for the new limits
+        self.streams_blocked = [false, false];
     }
 
     /// Process incoming stream frame
